@@ -765,6 +765,8 @@ def r05_9(ctx: Ctx) -> None:
 
 
 def run(ctx: Ctx) -> None:
+    from . import c04 as _c04s
+    _c04s.r04_18(ctx, rule="R05.10")  # the decoder's predicates say what their names say
     shared.strict_reads(ctx, "R05.6")
     from . import c20
     c20.r20_1(ctx, rule="R05.7")
